@@ -38,3 +38,96 @@ KERNELS = [
       [(r"n\(\)", "n"), (r"p\(\)", "p")],
       [("n", "Z"), ("p", "Z")], "c04", ["C04"]),
 ]
+
+# ---- program::reduce (src/program/util.cpp): the integer expressions around the LU-based row reduction -----------------
+_RED = r"void\s+reduce\s*\(matrix_t&\s*A\)\s*\{"
+KERNELS += [
+    # `if (dd.rank() == A.rows()) return;` -- the early return for independent rows
+    K("src_c04_reduce_full_rank", "src/program/util.cpp",
+      _RED + r".*?\bif\s*\((dd\.rank\(\)\s*==\s*A\.rows\(\))\)\s*\{\s*return\s*;",
+      [(r"dd\.rank\(\)", "rank"), (r"A\.rows\(\)", "arows")],
+      [("rank", "Z"), ("arows", "Z")], "c04", ["C04"]),
+    # `const auto n = std::min(A.rows(), A.cols());` -- inner dimension of the L (cols x n) and U (n x rows) factors
+    K("src_c04_reduce_n", "src/program/util.cpp",
+      _RED + r".*?const auto n\s*=\s*(std::min\(A\.rows\(\),\s*A\.cols\(\)\))\s*;",
+      [(r"A\.rows\(\)", "arows"), (r"A\.cols\(\)", "acols")],
+      [("arows", "Z"), ("acols", "Z")], "c04", ["C04"]),
+    # `LU.leftCols(n)` / `LU.topRows(n)`: the factors are cut at n
+    K("src_c04_reduce_lcols", "src/program/util.cpp",
+      _RED + r".*?const auto L\s*=\s*LU\.leftCols\((\w+)\)\.triangularView<Eigen::UnitLower>\(\)",
+      [], [("n", "Z")], "c04", ["C04"]),
+    K("src_c04_reduce_urows", "src/program/util.cpp",
+      _RED + r".*?const auto U\s*=\s*LU\.topRows\((\w+)\)\.triangularView<Eigen::Upper>\(\)",
+      [], [("n", "Z")], "c04", ["C04"]),
+    # `A = U.transpose().block(0, 0, dd.rank(), U.rows()) * L.transpose() * P;` -- the four block arguments
+    K("src_c04_reduce_block_r0", "src/program/util.cpp",
+      _RED + r".*?A\s*=\s*U\.transpose\(\)\.block\(\s*(\d+)\s*,\s*\d+\s*,[^;]*?\)\s*\*\s*L\.transpose\(\)\s*\*\s*P\s*;",
+      [], [], "c04", ["C04"]),
+    K("src_c04_reduce_block_c0", "src/program/util.cpp",
+      _RED + r".*?A\s*=\s*U\.transpose\(\)\.block\(\s*\d+\s*,\s*(\d+)\s*,[^;]*?\)\s*\*\s*L\.transpose\(\)\s*\*\s*P\s*;",
+      [], [], "c04", ["C04"]),
+    K("src_c04_reduce_block_rows", "src/program/util.cpp",
+      _RED + r".*?A\s*=\s*U\.transpose\(\)\.block\(\s*\d+\s*,\s*\d+\s*,\s*([^,;]*?)\s*,[^,;]*?\)\s*\*\s*L\.transpose\(\)\s*\*\s*P\s*;",
+      [(r"dd\.rank\(\)", "rank"), (r"U\.rows\(\)", "urows")],
+      [("rank", "Z"), ("urows", "Z")], "c04", ["C04"]),
+    K("src_c04_reduce_block_cols", "src/program/util.cpp",
+      _RED + r".*?A\s*=\s*U\.transpose\(\)\.block\(\s*\d+\s*,\s*\d+\s*,[^,;]*?,\s*([^,;]*?)\s*\)\s*\*\s*L\.transpose\(\)\s*\*\s*P\s*;",
+      [(r"dd\.rank\(\)", "rank"), (r"U\.rows\(\)", "urows")],
+      [("rank", "Z"), ("urows", "Z")], "c04", ["C04"]),
+    # program::reduce(A, b): `if (A.rows() == 0) return false;`, the stacked width `A.cols() + 1` of [A|b] and the split
+    K("src_c04_reduce_empty", "src/program/util.cpp",
+      r"bool\s+nano::program::reduce\s*\(matrix_t&\s*A,\s*vector_t&\s*b\)\s*\{.*?\bif\s*\((A\.rows\(\)\s*==\s*0)\)\s*\{\s*return\s+false\s*;",
+      [(r"A\.rows\(\)", "arows")],
+      [("arows", "Z")], "c04", ["C04"]),
+    K("src_c04_reduce_stack_cols", "src/program/util.cpp",
+      r"auto Ab\s*=\s*::nano::stack<scalar_t>\(A\.rows\(\),\s*(A\.cols\(\)\s*\+\s*1)\s*,\s*A\.matrix\(\),\s*b\.vector\(\)\)\s*;\s*::reduce\(Ab\)\s*;",
+      [(r"A\.cols\(\)", "acols")],
+      [("acols", "Z")], "c04", ["C04"]),
+    K("src_c04_reduce_split_A", "src/program/util.cpp",
+      r"\bA\s*=\s*Ab\.block\(0,\s*0,\s*Ab\.rows\(\),\s*(Ab\.cols\(\)\s*-\s*1)\)\s*;",
+      [(r"Ab\.cols\(\)", "abcols")],
+      [("abcols", "Z")], "c04", ["C04"]),
+    K("src_c04_reduce_split_b", "src/program/util.cpp",
+      r"\bb\s*=\s*Ab\.matrix\(\)\.col\((Ab\.cols\(\)\s*-\s*1)\)\s*;",
+      [(r"Ab\.cols\(\)", "abcols")],
+      [("abcols", "Z")], "c04", ["C04"]),
+]
+
+# ---- the step-length kernel of solve_with_inequality (src/program/solver.cpp: make_smax, s = s0 * smax, s *= beta) ------
+# doubles are compared / min-ed: translated as order formulas over Z and instantiated by the model (C04_Step.v) at the
+# numerators over a common denominator; products are instantiated at numerators (Qmult is numerator * numerator over
+# denominator * denominator). The quotient `-u(i) / du(i)` is an atom (its text is pinned by the atom table: any edit of it
+# makes the kernel untranslatable).
+_SMAX = r"auto\s+make_smax\s*\(const vector_t&\s*u,\s*const vector_t&\s*du\)\s*\{"
+KERNELS += [
+    K("src_c04_smax_loop_start", "src/program/solver.cpp",
+      _SMAX + r".*?for\s*\(tensor_size_t i\s*=\s*(\d+)\s*,\s*size\s*=\s*u\.size\(\)\s*;",
+      [], [], "c04", ["C04"]),
+    K("src_c04_smax_loop_cond", "src/program/solver.cpp",
+      _SMAX + r".*?for\s*\(tensor_size_t i\s*=\s*\d+\s*,\s*size\s*=\s*u\.size\(\)\s*;\s*([^;]*?)\s*;\s*\+\+i\)",
+      [], [("i", "Z"), ("size", "Z")], "c04", ["C04"]),
+    K("src_c04_smax_neg", "src/program/solver.cpp",
+      _SMAX + r".*?\bif\s*\((du\(i\)\s*<\s*0\.0)\)\s*\{\s*smax\s*=",
+      [(r"du\(i\)", "dui"), (r"0\.0", "0")],
+      [("dui", "Z")], "c04", ["C04"]),
+    K("src_c04_smax_min", "src/program/solver.cpp",
+      _SMAX + r".*?\{\s*smax\s*=\s*(std::min\(smax,\s*-u\(i\) / du\(i\)\))\s*;",
+      [(r"-u\(i\) / du\(i\)", "ratio")],
+      [("smax", "Z"), ("ratio", "Z")], "c04", ["C04"]),
+    K("src_c04_smax_cap", "src/program/solver.cpp",
+      _SMAX + r".*?return\s+(std::min\(smax,\s*1\.0\))\s*;",
+      [(r"1\.0", "one")],
+      [("smax", "Z"), ("one", "Z")], "c04", ["C04"]),
+    K("src_c04_step_init", "src/program/solver.cpp",
+      r"auto\s+s\s*=\s*(s0 \* make_smax\(state\.m_u, du\))\s*;",
+      [(r"make_smax\(state\.m_u, du\)", "smax")],
+      [("s0", "Z"), ("smax", "Z")], "c04", ["C04"]),
+    # the two backtracking stages only ever shrink the step: `s *= beta`
+    K("src_c04_step_shrink1", "src/program/solver.cpp",
+      r"\bs\s*\*=\s*(\w+)\s*;", [], [("s", "Z"), ("beta", "Z")], "c04", ["C04"], pick=0, wrap="s * ({})"),
+    K("src_c04_step_shrink2", "src/program/solver.cpp",
+      r"\bs\s*\*=\s*(\w+)\s*;", [], [("s", "Z"), ("beta", "Z")], "c04", ["C04"], pick=1, wrap="s * ({})"),
+    # the accepted step is applied to the multipliers as it is: `state.m_u += s * du;`
+    K("src_c04_step_applied", "src/program/solver.cpp",
+      r"state\.m_u\s*\+=\s*(\w+)\s*\*\s*du\s*;", [], [("s", "Z")], "c04", ["C04"]),
+]
